@@ -146,7 +146,14 @@ def run(ctx):
 def replay(ctx, path):
     binary = vlib.build(ctx, "vmx")
     rc = json.load(open(path))["case"]
-    recs = [r for r in vlib.run_harness(ctx, binary, cases=[{"seed": 1, "src": rc["source"], "rawlines": [rc["line"]]}]) if "seed" in r]
+    progfile = os.path.join(ctx.sub("progs"), "progs.ndjson")
+    recs = [r for r in vlib.run_harness(ctx, binary, args=["-progs", progfile],
+                                        cases=[{"seed": 1, "src": rc["source"], "rawlines": [rc["line"]]}]) if "seed" in r]
     for t in recs[0].get("traces", []):
         if t["err"] and t["internal"]:
             ctx.violation(rc, t["msg"][:300])
+    if recs[0].get("accepted") and not ctx.violations:
+        tr = vlib.tlc(ctx, "VM", vm_cfg("trace", progfile, True), label="VM-trace", timeout=600, expect_violation=True)
+        if tr.violated:
+            print(tr.trace_text[-2500:])
+            ctx.violation(rc, "reproduced: the real VM's execution of line %r is not a path of VM.tla (%s)" % (rc["line"], tr.violated))
